@@ -2,7 +2,8 @@
    (functions.rs:1282-1480) and a few simple ones, transcribed.  Definitions only.
    `args[i]` is a partial operation: [arg i] yields Panic when i is past the end (so that
    "the arity check protects every index" is a theorem, not an assumption).
-   The callbacks are invoked with Value::Null as this_value — exactly as the Rust code does. *)
+   The callbacks are invoked with the function value itself as this_value (repo fix 2f...: before
+   it they received Value::Null, which broke named recursive callbacks; known/C13.json F22). *)
 From Coq Require Import String List ZArith Bool.
 Require Import Blots.Num Blots.gen.Builtins Blots.Ast Blots.Value Blots.Outcome Blots.Binop Blots.Env
                Blots.Eval.
@@ -32,7 +33,7 @@ Section Hof.
     match l with
     | [] => (Ok [], st)
     | x :: r =>
-        match call VNull f (cb_args two x i) st with
+        match call f f (cb_args two x i) st with
         | (Ok y, st1) =>
             match map_loop f two r (S i) st1 with
             | (Ok ys, st2) => (Ok (y :: ys), st2)
@@ -47,7 +48,7 @@ Section Hof.
     match l with
     | [] => (Ok [], st)
     | x :: r =>
-        match call VNull f (cb_args two x i) st with
+        match call f f (cb_args two x i) st with
         | (Ok y, st1) =>
             match as_bool y with
             | Ok keep =>
@@ -66,7 +67,7 @@ Section Hof.
     match l with
     | [] => (Ok acc, st)
     | x :: r =>
-        match call VNull f (if three then [acc; x; idx_num i] else [acc; x]) st with
+        match call f f (if three then [acc; x; idx_num i] else [acc; x]) st with
         | (Ok acc', st1) => reduce_loop f three r (S i) acc' st1
         | (o, st1) => (o, st1)
         end
@@ -78,7 +79,7 @@ Section Hof.
     match l with
     | [] => (Ok (VBool true), st)
     | x :: r =>
-        match call VNull f (cb_args two x i) st with
+        match call f f (cb_args two x i) st with
         | (Ok y, st1) =>
             match as_bool y with
             | Ok true => every_loop f two r (S i) st1
@@ -93,7 +94,7 @@ Section Hof.
     match l with
     | [] => (Ok (VBool false), st)
     | x :: r =>
-        match call VNull f (cb_args two x i) st with
+        match call f f (cb_args two x i) st with
         | (Ok y, st1) =>
             match as_bool y with
             | Ok true => (Ok (VBool true), st1)
